@@ -333,6 +333,7 @@ func (db *DB) memCompaction() {
 	db.compStats.addStat(flushLevel, stats)
 	atomic.AddUint32(&db.memComp, 1)
 
+	verifYield(7)
 	// Drop frozen memdb.
 	db.dropFrozenMem()
 
